@@ -279,6 +279,7 @@ class PyEval:
         self.max_steps, self.steps = max_steps, 0
         self.decorators = decorators or {}      # decorator name -> 'identity' | python callable(Func) -> value
         self.modules = {}
+        self.set_order = None                   # optional key function: the order in which `for x in <set>` visits the members (default: the host's order)
 
     # ------------------------------------------------------------------------------------------------------ modules
     def load_module(self, name, tree, presets=None, imports=None):
@@ -404,7 +405,10 @@ class PyEval:
             raise PyRaise(TypeError('%s() got an unexpected keyword argument %r' % (f.name, sorted(kwargs)[0])))
         if isinstance(node, ast.Lambda):
             return self.ev(node.body, env)
-        if any(isinstance(n, (ast.Yield, ast.YieldFrom)) for n in walk_no_nested(node)):
+        is_gen = getattr(node, '_sa_is_generator', None)
+        if is_gen is None:
+            is_gen = node._sa_is_generator = any(isinstance(n, (ast.Yield, ast.YieldFrom)) for n in walk_no_nested(node))
+        if is_gen:
             raise EvalError('generator function %s' % f.name)
         try:
             self.exec_block(node.body, env)
@@ -713,6 +717,8 @@ class PyEval:
             raise EvalError('iteration over a value the evaluator could not establish (%s)' % v.why)
         if isinstance(v, (Obj, Cls, Func, Mod)):
             raise EvalError('iteration over %r' % (v,))
+        if self.set_order is not None and isinstance(v, (set, frozenset)):
+            return iter(sorted(v, key=self.set_order))
         try:
             return iter(v)
         except TypeError as e:
@@ -1894,4 +1900,299 @@ def rule_buffer(px):
     fn_save, me_save = fn, me
     p2, _ = analyse(b2, i2)
     r.positive_control([k for k, _, _ in p2] == ['keeps-token-start'], 'refill that discards up to the current position')
+    return r
+
+
+# ---------------------------------------------------------------------------------------------------------------- EPS
+# The epsilon closure used by the subset construction, decided on the complete domain of small epsilon graphs.
+#
+# The closure functions of DFA.py look at an NFA only through Node.link_to / TransitionMap.get_epsilon, set membership and the
+# memo slot on the node.  They are interpreted (sC50.PyEval, nothing is imported or run) on EVERY labelled epsilon graph with
+# up to EPS_N nodes (no self loops), the nodes being built with the interpreted Machines.Node and linked with the interpreted
+# link_to.  Sets of nodes are iterated in label order; since every labelling of every graph is in the domain, every pair
+# (graph shape, iteration order of its successor sets) is covered - CPython iterates such sets in address order, so each of
+# these orders can occur.  Because closures are memoised on the nodes, every ORDER of requests matters: each graph is
+# evaluated for every permutation of its nodes (the per-state function first and the per-set function first), and every
+# request is repeated at the end (a later request must not change an earlier answer).
+EPS_N = 3
+EPS_N_WIDE = 4
+EPS_WIDE_EDGES = 4
+
+
+def closure_entry_points(px):
+    """names of the DFA.py functions that nfa_to_dfa calls and that reach TransitionMap.get_epsilon through the module's call graph"""
+    from .pC50 import _method_calls
+    tree = px.trees['DFA']
+    funcs = {n.name: n for n in tree.body if isinstance(n, ast.FunctionDef)}
+    F = {name for name, fn in funcs.items() if _method_calls(fn, 'get_epsilon')}
+    ch = True
+    while ch:
+        ch = False
+        for name, fn in funcs.items():
+            if name not in F and any(isinstance(n, ast.Call) and isinstance(n.func, ast.Name) and n.func.id in F for n in walk_no_nested(fn)):
+                F.add(name)
+                ch = True
+    top = funcs.get('nfa_to_dfa')
+    if top is None:
+        raise AnalysisError('DFA.nfa_to_dfa not found')
+    F.discard('nfa_to_dfa')
+    used = []
+    for n in walk_no_nested(top):
+        if isinstance(n, ast.Call) and isinstance(n.func, ast.Name) and n.func.id in F and n.func.id not in used:
+            used.append(n.func.id)
+    if not used:
+        raise AnalysisError('DFA.nfa_to_dfa: no call of an epsilon-closure function (a function reaching TransitionMap.get_epsilon) found')
+    return sorted(used), funcs
+
+
+class _EpsWorld:
+    """one labelled epsilon graph built from interpreted Node objects"""
+
+    def __init__(self, pm, n, edges):
+        self.pm = pm
+        self.nodes = [pm.call('Machines', 'Node') for _ in range(n)]
+        self.label = {id(o): i for i, o in enumerate(self.nodes)}
+        for i, j in edges:
+            pm.method(self.nodes[i], 'link_to', self.nodes[j])
+        succ = {i: {j for a, j in edges if a == i} for i in range(n)}
+        self.closure = {}
+        for i in range(n):
+            seen, todo = {i}, [i]
+            while todo:
+                for j in succ[todo.pop()]:
+                    if j not in seen:
+                        seen.add(j)
+                        todo.append(j)
+            self.closure[i] = frozenset(seen)
+
+    def labels(self, value):
+        if not isinstance(value, (set, frozenset, list, tuple)):
+            return None
+        out = set()
+        for o in value:
+            if id(o) not in self.label:
+                return None
+            out.add(self.label[id(o)])
+        return frozenset(out)
+
+
+def _eps_graphs(n):
+    import itertools
+    pairs = [(i, j) for i in range(n) for j in range(n) if i != j]
+    for k in range(len(pairs) + 1):
+        for es in itertools.combinations(pairs, k):
+            yield es
+
+
+def _show_graph(edges, names='ABCD'):
+    return ', '.join('%s->%s' % (names[i], names[j]) for i, j in edges) or 'no epsilon moves'
+
+
+def _show_set(s, names='ABCD'):
+    return '{' + ', '.join(names[i] for i in sorted(s)) + '}'
+
+
+class _EpsFail(Exception):
+    def __init__(self, fn, msg):
+        self.fn, self.msg = fn, msg
+
+
+def _eps_run(pm, kinds, n, edges, perm, set_first, budget=40000):
+    """evaluate one request sequence on one graph; raises _EpsFail(function, message) on the first wrong answer"""
+    ev = pm.ev
+    saved = (ev.steps, ev.max_steps, getattr(ev, 'set_order', None))
+    ev.steps, ev.max_steps = 0, budget
+    w = _EpsWorld(pm, n, edges)
+    ev.set_order = lambda o: w.label.get(id(o), -1)
+    names = 'ABCD'
+    state_fns = [f for f, k in kinds.items() if k == 'state']
+    set_fns = [f for f, k in kinds.items() if k == 'set']
+
+    def ask(fn, members, what):
+        try:
+            if kinds[fn] == 'state':
+                res = pm.call('DFA', fn, w.nodes[members[0]])
+            else:
+                s = set()
+                for i in members:
+                    s.add(w.nodes[i])
+                res = pm.call('DFA', fn, s)
+        except PyRaise as e:
+            raise _EpsFail(fn, 'raises %s for %s' % (type(e.exc).__name__ if not isinstance(e.exc, Obj) else e.exc.cls.name, what))
+        except RecursionError:
+            raise _EpsFail(fn, 'recurses without end for %s' % what)
+        except EvalError as e:
+            if 'step budget' in str(e):
+                raise _EpsFail(fn, 'does not terminate for %s' % what)
+            raise
+        want = frozenset().union(*[w.closure[i] for i in members])
+        got = w.labels(res)
+        if got is None:
+            raise _EpsFail(fn, 'does not return a set of the NFA states for %s' % what)
+        if got != want:
+            lost, extra = want - got, got - want
+            raise _EpsFail(fn, 'returns %s for %s; the states reachable by epsilon moves are %s%s%s' % (
+                _show_set(got), what, _show_set(want),
+                ' (lost: %s - the DFA state built from this set lacks their transitions and actions, so matches stop early or are missed)' % _show_set(lost) if lost else '',
+                ' (added: %s - states that are not reachable without input take part in the match)' % _show_set(extra) if extra else ''))
+    try:
+        order = ' after the requests for ' + ', '.join(names[i] for i in perm)
+        steps = []
+        for fn in state_fns:
+            steps += [(fn, [i]) for i in perm]
+        set_steps = []
+        for fn in set_fns:
+            set_steps += [(fn, list(perm[:2])), (fn, list(perm))]
+        plan = (set_steps + steps) if set_first else (steps + set_steps)
+        done = []
+        for fn, members in plan:
+            what = 'the state%s %s%s' % ('' if len(members) == 1 else 's', ', '.join(names[i] for i in members),
+                                        (' (earlier requests: %s)' % ', '.join('+'.join(names[i] for i in mm) for _, mm in done)) if done else ' (first request)')
+            ask(fn, members, what)
+            done.append((fn, members))
+        for fn, members in plan:
+            ask(fn, members, 'the state%s %s when asked again%s' % ('' if len(members) == 1 else 's', ', '.join(names[i] for i in members), order))
+    finally:
+        ev.steps, ev.max_steps, ev.set_order = saved
+
+
+def _eps_kinds(pm, fns):
+    """which closure entry point takes one state and which a set of states: the argument form under which the function evaluates to a set for a state without
+    epsilon moves (the other form fails: a set has no transitions, a Node cannot be iterated)"""
+    kinds = {}
+    for fn in fns:
+        ok, why = [], []
+        for k in ('state', 'set'):
+            nd = pm.call('Machines', 'Node')
+            try:
+                res = pm.call('DFA', fn, nd if k == 'state' else {nd})
+            except (PyRaise, EvalError, RecursionError) as e:
+                why.append('%s: %s' % (k, e))
+                continue
+            if isinstance(res, (set, frozenset)):
+                ok.append(k)
+        if len(ok) != 1:
+            raise AnalysisError('DFA.%s: cannot tell whether it takes a state or a set of states (evaluates to a set for: %s; %s); the closure interface is not the one this rule models' % (fn, ok or 'neither', '; '.join(why)))
+        kinds[fn] = ok[0]
+    return kinds
+
+
+def _eps_cyclic(n, edges):
+    succ = {i: [j for a, j in edges if a == i] for i in range(n)}
+    for i in range(n):
+        seen, todo = set(), list(succ[i])
+        while todo:
+            j = todo.pop()
+            if j == i:
+                return True
+            if j not in seen:
+                seen.add(j)
+                todo.extend(succ[j])
+    return False
+
+
+def _eps_rooted(n, edges):
+    succ = {i: [j for a, j in edges if a == i] for i in range(n)}
+    seen, todo = {0}, [0]
+    while todo:
+        for j in succ[todo.pop()]:
+            if j not in seen:
+                seen.add(j)
+                todo.append(j)
+    return len(seen) == n
+
+
+def eps_domain():
+    """(n, edges, request order, per-set function first?) - every labelled graph on EPS_N states with every request order, and every graph on
+    EPS_N_WIDE states with at most EPS_WIDE_EDGES epsilon moves in which every state is reachable from A (requests in the order A..D and D..A)"""
+    import itertools
+    for edges in _eps_graphs(EPS_N):
+        for perm in itertools.permutations(range(EPS_N)):
+            for set_first in (False, True):
+                yield EPS_N, edges, perm, set_first
+    wide = tuple(range(EPS_N_WIDE))
+    for edges in _eps_graphs(EPS_N_WIDE):
+        if len(edges) <= EPS_WIDE_EDGES and _eps_rooted(EPS_N_WIDE, edges):
+            yield EPS_N_WIDE, edges, wide, False
+            yield EPS_N_WIDE, edges, wide[::-1], True
+
+
+class _PcModel:
+    """a self-contained module in its own evaluator, with the interface of PlexModel (for the embedded positive example)"""
+
+    def __init__(self, src):
+        self.ev = PyEval(max_steps=200000)
+        self.mod = self.ev.load_module('pc', ast.parse(src))
+
+    def call(self, mod, name, *args, **kw):
+        return self.ev.call(self.mod.vars[name], list(args), kw)
+
+    def method(self, obj, name, *args, **kw):
+        return self.ev.call(self.ev.getattr(obj, name), list(args), kw)
+
+
+_EPS_PC = """
+class Node:
+    def __init__(self):
+        self.eps = set()
+        self.memo = None
+    def link_to(self, other):
+        self.eps.add(other)
+def closure(state):
+    result = state.memo
+    if result is None:
+        result = set()
+        state.memo = result
+        add_to(result, state)
+    return result
+def add_to(state_set, state):
+    if state not in state_set:
+        state_set.add(state)
+        for state2 in state.eps:
+            state_set.update(closure(state2))
+"""
+
+
+def rule_epsclosure(px):
+    r = Rule('C50-EPS', 'the epsilon-closure functions nfa_to_dfa uses return exactly the states reachable by epsilon moves: on every epsilon graph on %d states for every '
+             'iteration order of the successor sets and every order of the (memoised) requests, and on every graph on %d states with at most %d moves reachable from its '
+             'first state' % (EPS_N, EPS_N_WIDE, EPS_WIDE_EDGES), floor=2)
+    pm = px.model()
+    fns, funcs = closure_entry_points(px)
+    rel = px.rel('DFA')
+    try:
+        kinds = _guard('DFA epsilon closure', lambda: _eps_kinds(pm, fns))
+    except PyRaise as e:
+        raise AnalysisError('DFA epsilon closure raises %r on a single state' % (e.exc,))
+    if 'state' not in kinds.values():
+        raise AnalysisError('DFA.nfa_to_dfa: no per-state epsilon-closure function among %s' % fns)
+    failed = {}
+    counts = {}
+    for n, edges, perm, set_first in eps_domain():
+        if len(failed) == len(fns):
+            break
+        cls = 'cyclic' if _eps_cyclic(n, edges) else 'acyclic'
+        counts[cls] = counts.get(cls, 0) + 1
+        try:
+            _guard('DFA epsilon closure', lambda: _eps_run(pm, kinds, n, edges, perm, set_first))
+        except _EpsFail as e:
+            failed.setdefault(e.fn, (n, edges, cls, e.msg))
+    for fn in fns:
+        for cls in ('acyclic', 'cyclic'):
+            r.inst('DFA.%s:%s' % (fn, cls), sample='DFA.%s (%s -> closure) on %d request sequences over %s epsilon graphs' % (fn, kinds[fn], counts.get(cls, 0), cls))
+        if fn in failed:
+            n, edges, cls, msg = failed[fn]
+            r.violate('DFA.%s:%s' % (fn, cls), rel, funcs[fn].lineno,
+                      'on the epsilon graph %s (successor sets visited in alphabetical order) %s %s: the subset construction turns this set into a DFA state, '
+                      'so the scanner no longer returns the longest match of the rules' % (_show_graph(edges), fn, msg))
+    # embedded positive example: a memoised closure that copies the memo of a successor while that memo is still being filled
+    pc = _PcModel(_EPS_PC)
+    hit = False
+    try:
+        _eps_run(pc, {'closure': 'state'}, 3, ((0, 1), (0, 2), (1, 0)), (0, 1, 2), False)
+    except _EpsFail:
+        hit = True
+    except (EvalError, PyRaise) as e:
+        raise AnalysisError('C50-EPS: embedded example outside the evaluator (%s)' % (e,))
+    r.positive_control(hit, 'closure that reuses a successor\'s memo while it is being built (A->B, A->C, B->A)')
     return r
